@@ -187,7 +187,16 @@ class SimValueError(ValueError, SimLeafError):
     pass
 
 
-RES = {'none': None, 'zero': 0, 'empty': '', 'list': [], 'false': False, 'handle': 'HANDLE'}
+RES = {'none': None, 'zero': 0, 'empty': '', 'list': [], 'false': False, 'handle': 'HANDLE', 'arr': 'ARR', 'series': 'SERIES'}
+
+
+def _res_value(kind):
+    # results that compare element-wise (their truth value is ambiguous): an awaitable may result in those too
+    if kind == 'arr':
+        return _plain({'special': 'nparray'})
+    if kind == 'series':
+        return _plain({'special': 'series'})
+    return RES[kind]
 
 
 def _copy_res(v):
@@ -328,7 +337,7 @@ def execute(trace, ctx=None):
                 handles[key_] = h_
             return handles[key_]
         if kind_ in RES:
-            return _copy_res(RES[kind_])
+            return _copy_res(_res_value(kind_))
         return ['r', i] if gen['n'] == 1 else ['r', i, gen['n']]
 
     def ev(i):
@@ -788,7 +797,7 @@ def _same_skip(val, node, leaves, skip):
             k_ = leaves[j].get('res')
             if k_ == 'handle':
                 return val if hasattr(val, 'done') else ['no-handle']
-            return RES[k_] if k_ in RES else ['r', j]
+            return _res_value(k_) if k_ in RES else ['r', j]
         if leaf['kind'] == 'shared' and leaf.get('of') is not None:
             return _same(val, res_(leaf['of'])) or _same(val, res_(i))
         return _same(val, res_(i))
